@@ -297,4 +297,59 @@ theorem hexToI64_natDigits (u : Bool) (n : Nat) (h : n ≤ U64_MAX) :
       simp [hi]
     rw [hnone, parseU64_hex u n h]
 
+
+/-! ### `+` forms and leading zeros -/
+
+theorem parseDigitsAcc_zeros (radix : Nat) (hr : 0 < radix) (k : Nat) (l : List Char) :
+    parseDigitsAcc radix 0 (List.replicate k '0' ++ l) = parseDigitsAcc radix 0 l := by
+  induction k with
+  | zero => rfl
+  | succ k ih =>
+    have hd : digitVal radix '0' = some 0 := by
+      have : digitVal radix '0' = (if 0 < radix then some 0 else none) := by
+        simp [digitVal]
+      simp [this, hr]
+    simp only [List.replicate_succ, List.cons_append, parseDigitsAcc, hd, Nat.zero_mul, Nat.add_zero]
+    exact ih
+
+theorem parseDigits_zeros (radix : Nat) (hr : 0 < radix) (k : Nat) (l : List Char) (n : Nat)
+    (h : parseDigits radix l = some n) :
+    parseDigits radix (List.replicate k '0' ++ l) = some n := by
+  cases l with
+  | nil => simp [parseDigits] at h
+  | cons c r =>
+    have h' : parseDigitsAcc radix 0 (c :: r) = some n := by simpa [parseDigits] using h
+    cases k with
+    | zero => simpa using h
+    | succ k =>
+      have := parseDigitsAcc_zeros radix hr (k + 1) (c :: r)
+      simp only [parseDigits, List.replicate_succ, List.cons_append] at this ⊢
+      rw [this, h']
+
+/-- hexadecimal digits with any number of leading zeros -/
+theorem hexToI64_zeros (u : Bool) (k n : Nat) (h : n ≤ U64_MAX) :
+    hexToI64 (List.replicate k '0' ++ natDigits 16 u n) = .ok (wrapI64 n) := by
+  cases k with
+  | zero => simpa using hexToI64_natDigits u n h
+  | succ k =>
+    have hp := parseDigits_zeros 16 (by omega) (k + 1) _ n (parseDigits_natDigits16 u n)
+    simp only [List.replicate_succ, List.cons_append] at hp ⊢
+    unfold hexToI64
+    rw [parseI64_of_digits 16 '0' _ (by decide) (by decide), hp,
+      parseU64_of_digits 16 '0' _ (by decide), hp]
+    by_cases hi : (n : Int) ≤ I64_MAX
+    · simp [hi, wrapI64]
+    · simp [hi, h]
+
+/-- `+` followed by decimal digits -/
+theorem convertToInt_plus (n : Nat) (h : (n : Int) ≤ I64_MAX) :
+    convertToInt ('+' :: natDigits 10 false n) = .ok (n : Int) := by
+  rw [convertToInt_noPrefix '+' _ (Or.inl (by decide))]
+  simp [parseI64, parseDigits_natDigits10 n, h, ofOpt]
+
+theorem convertToUint_plus (n : Nat) (h : n ≤ U64_MAX) :
+    convertToUint ('+' :: natDigits 10 false n) = .ok n := by
+  rw [convertToUint_noPrefix '+' _ (Or.inl (by decide))]
+  simp [parseU64, parseDigits_natDigits10 n, h, ofOpt]
+
 end CamVerif.XmlParse
